@@ -596,7 +596,7 @@ def w_timing(task):
                         confirmations += 1
                         # confirm on a fresh Simulator before reporting
                         res2, _s, _t = check_sequence(d, progs, fresh, seq)
-                        if res2 is None or res2[:2] != res[:2]:
+                        if res2 is None:
                             _add(out, "timing_reused_simulator_not_confirmed")
                             res2 = ("reused-simulator-differs", res[0], res[2], f"after Simulator.reset(): {res[3]}; fresh simulator: "
                                     f"{res2[3] if res2 else 'conforms'}")
@@ -648,8 +648,8 @@ def format_tasks(rep):
             # quick tier: the secondary operand forms get the reduced alphabet
             alphabet = specs if (form == "sig" or not rep.quick) else reduced
             for ch in chunks(alphabet, 3500):
-                tasks.append(("format", (w, sg, form, ch, vals, avals, rep.tier)))
-        tasks.append(("format", (w, sg, "sig", braces, vals[:3] + vals[-1:], avals[:1], rep.tier)))
+                tasks.append(("format", (w, sg, form, ch, vals, avals, rep.tier), rep.tier))
+        tasks.append(("format", (w, sg, "sig", braces, vals[:3] + vals[-1:], avals[:1], rep.tier), rep.tier))
     return tasks, nspecs
 
 
@@ -664,11 +664,11 @@ def timing_tasks(rep):
         other = descs[(i + n // 2) % n]
         desc = {"p": d, "n": other, "reg_hole": i}
         plan = [(0, 0, L)] + [(c, k, L - 1) for c in range(4) for k in range(2) if (c, k) != (0, 0)]
-        tasks.append(("timing", (desc, plan, rep.pick(1, 3))))
+        tasks.append(("timing", (desc, plan, rep.pick(1, 3)), rep.tier))
     # asynchronous reset of the rising-edge domain (no falling-edge program; mask bit 2 toggles the reset)
     for outer in ("bare", "ifelse", "sw_default"):
         desc = {"p": (outer, None, None, 0), "n": None, "arst": True, "reg_hole": 0}
-        tasks.append(("timing", (desc, [(0, 0, L), (2, 0, L - 1)], rep.pick(2, 4))))
+        tasks.append(("timing", (desc, [(0, 0, L), (2, 0, L - 1)], rep.pick(2, 4)), rep.tier))
     return tasks
 
 
@@ -689,17 +689,22 @@ def run(rep):
             for k, v in rc.items():
                 cur[k] = cur.get(k, 0) + v
         rep.merge(out)
+    _interleave(rep)
     rep.setcov("specifications", nspecs)
     rep.setcov("cpu_seconds_by_part", {k: round(v, 1) for k, v in walls.items()})
     rep.setcov("exhaustive", rep.cov.get("violations_suppressed", 0) == 0)
-    rep.setcov("rule", "Part A: every string of the product fill x align x sign x # x 0 x width x grouping x type (plus unusual fill "
-               "characters on a reduced product and a list of malformed strings) x 10 shapes x operand forms {signal, ~signal, "
-               "as_signed/as_unsigned}: Format acceptance == documented grammar; for accepted ones, all values (width<=4 quick, <=8 "
-               "thorough) or corner values: text printed by a sync Print and message of the failing Assert == Python format(). "
-               "Part B: control-flow programs (12 forms, nesting depth <= 2, every hole holds Print/Assert/Cover/Assume/Print) in a "
-               "rising- and a falling-edge domain; ALL sequences of (input valuation, clock toggle mask) actions of the stated length "
-               "from every register initial state, each on a fresh Simulator. distinct_nontrivial = accepted (spec, operand, value) "
-               "triples whose expected text differs from str(value), plus timing designs with at least one active edge")
+    rep.setcov("rule", "Part A: every string of the product fill{none,*,0,space,x} x align{none,<,>,=,^} x sign x # x 0 x width x "
+               "grouping{none,_,comma} x type{none,b,o,d,x,X,c,s,n,e,f,%} (plus 7 unusual fill characters and the brace fills on reduced "
+               "products, and a list of malformed strings) x 10 shapes (u0 u1 u4 u8 s1 s4 s8 u16 u21 u24) x operand forms {signal, ~signal, "
+               "as_signed/as_unsigned; quick tier: the two secondary forms on the no-fill sub-product}: Format acceptance == documented "
+               "grammar; for accepted ones, all values (width<=4 quick, <=8 thorough) or corner values: text printed by a sync Print and "
+               "message of the failing Assert == Python format(). Part B: control-flow programs (12 forms, nesting depth <= 2, every hole "
+               "holds Print/Assert/Cover/Assume/Print) in a rising- and a falling-edge domain (+3 designs with an asynchronous reset); ALL "
+               "sequences of (input valuation, clock toggle mask) actions up to the stated length from every register initial state "
+               "(extensions of a sequence that ended in an AssertionError are not run), each one a separate Simulator.run(). "
+               "distinct_nontrivial = accepted (spec, operand, value) triples whose expected text differs from str(value), plus timing "
+               "designs with at least one active edge")
+    rep.setcov("timing_sequence_length", {"register_init_0": rep.pick(3, 4), "other_register_inits": rep.pick(2, 3)})
     rep.require(rep.cov.get("accepted", 0) > 0 and rep.cov.get("rejected", 0) > 0, "both accepted and rejected specifications")
     rep.require(rep.cov.get("grammar_valid", 0) > 0 and rep.cov.get("grammar_invalid", 0) > 0, "grammar oracle says valid and invalid")
     rep.require(rep.cov.get("print_texts_compared", 0) > 0, "Print texts compared")
@@ -711,15 +716,85 @@ def run(rep):
     rep.assume("Part A catches the AssertionError at the ctx.set that produced the edge (same exception object that run() propagates); "
                "Part B and every reported case observe the exception raised by Simulator.run() itself")
     rep.assume("`s`: values with a NUL byte below a non-NUL byte or with non-UTF-8 bytes, and `c` values above 0x10FFFF, carry no expectation")
+    rep.assume("Part B reuses one Simulator per design through the public Simulator.reset(); every reported sequence is re-run on a fresh "
+               "Simulator first, and a spread of the longest sequences is compared between both")
     rep.assume("prints of one edge are compared as a multiset (the statement does not order them); edges while an asynchronous reset is "
                "asserted are not constrained")
 
 
+def _family(sig):
+    """coarse defect family of a signature (only used to order the report)"""
+    p = sig.split(":")
+    if p[0] == "timing":
+        return ("timing", "arst" in p[1], p[2], p[3] if len(p) > 3 and not p[3][:1].isupper() else "")
+    spec = sig.split("'")[1] if "'" in sig else ""
+    return (p[0], p[1], spec[:1] in "{}" and spec[1:2] in "<>=^", spec[-1:] if spec[-1:] in "cs" else "i")
+
+
+def _interleave(rep):
+    """the runner writes replay files for the first few signatures only: order the violations round-robin over
+    defect families so that one frequent defect does not hide a different one"""
+    fams = {}
+    for v in rep.violations:
+        fams.setdefault(_family(v["sig"]), []).append(v)
+    out = []
+    lists = [fams[k] for k in sorted(fams, key=str)]
+    i = 0
+    while any(lists):
+        for lst in lists:
+            if i < len(lst):
+                out.append(lst[i])
+        i += 1
+        lists = [lst for lst in lists if i < len(lst)] if not any(i < len(lst) for lst in lists) else lists
+    rep.violations[:] = out
+
+
+TASK_TIMEOUT = {"quick": 150, "thorough": 900}
+
+
+class _TaskTimeout(Exception):
+    pass
+
+
+def _on_alarm(signum, frame):
+    raise _TaskTimeout()
+
+
+def _task_name(t):
+    if t[0] == "format":
+        w, sg, form, specs = t[1][:4]
+        return f"format:{form}:{_shape_name(w, sg)}:{specs[0]!r}..{specs[-1]!r}"
+    return "timing:" + timing_tag(t[1][0])
+
+
 def _dispatch_timed(t):
+    """one task in a pool worker, with a wall-clock limit: simulated code that does not terminate (or raises
+    something unexpected) is reported as a violation of the task instead of hanging the check"""
+    import signal
     import time
     t0 = time.time()
-    out = _dispatch(t)
+    tier = t[2]
+    signal.signal(signal.SIGALRM, _on_alarm)
+    signal.alarm(TASK_TIMEOUT[tier])
+    try:
+        out = _dispatch(t)
+    except _TaskTimeout:
+        out = _new()
+        del out["_sigs"]
+        _add(out, "tasks_timed_out")
+        out["violations"].append({"sig": "timeout:" + _task_name(t), "what": f"task {_task_name(t)} did not finish within "
+                                  f"{TASK_TIMEOUT[tier]} s (non-terminating simulation?)", "payload": {"kind": "task", "task": _jsonable(t)}})
+    finally:
+        signal.alarm(0)
     return (t[0], out, time.time() - t0)
+
+
+def _jsonable(x):
+    if isinstance(x, (list, tuple)):
+        return [_jsonable(y) for y in x]
+    if isinstance(x, dict):
+        return {k: _jsonable(v) for k, v in x.items()}
+    return x
 
 
 def replay(payload):
@@ -746,6 +821,17 @@ def replay(payload):
     if kind == "batch":
         out = _new()
         _format_batch(out, payload["form"], payload["w"], payload["sg"], payload["batch"], [payload["v"]], [payload["v"]])
+        return [v["what"] for v in out["violations"]]
+    if kind == "task":
+        def tup(x):
+            return tuple(tup(y) for y in x) if isinstance(x, list) else x
+        t = payload["task"]
+        task = (t[0], tuple(t[1][:3]) + (t[1][3],) + tuple(t[1][4:]) if t[0] == "format" else (t[1][0], [tuple(p) for p in t[1][1]], t[1][2]), t[2])
+        if t[0] == "timing":
+            for dom in ("p", "n"):
+                if task[1][0].get(dom):
+                    task[1][0][dom] = tuple(task[1][0][dom])
+        _k, out, _w = _dispatch_timed(task)
         return [v["what"] for v in out["violations"]]
     if kind == "timing":
         from ..sim.driver import elaborate
